@@ -2,7 +2,7 @@
 # Runs every kept seeded change against the checks named in its meta.json; prints one line per change.
 cd /verif
 fail=0
-for d in seeded/*/; do
+for d in seeded/C*/; do
   id=$(basename $d)
   out=$(selftest/run_seeded.sh $id 2>&1); rc=$?
   if [ $rc -eq 0 ]; then echo "CAUGHT  $id  ($(echo "$out" | grep -E '^C[0-9]+ ' | grep -v ' 0 violations' | cut -d' ' -f1 | tr '\n' ' '))"; else echo "MISSED  $id"; fail=1; fi
